@@ -1,0 +1,518 @@
+//go:build verif
+
+// Contracts for govc (contract-based deductive verification); comments only.
+package podgroup_info
+
+//@ import sgi "github.com/NVIDIA/KAI-scheduler/pkg/scheduler/api/podgroup_info/subgroup_info"
+
+// C06: "never evict pods of non-preemptible workloads": the workload-side predicate.
+//@ func (*PodGroupInfo).IsPreemptibleJob
+//@   props C06
+//@   requires pgi != nil
+//@   pure
+//@   ensures result == (pgi.Preemptibility == enginev2alpha2.Preemptible)
+//@ end
+
+// ---- allocation_info.go -------------------------------------------------------
+// a task that still has to be placed: Pending, or (simulation only) virtually released
+//@ define wantsAlloc(t *pod_info.PodInfo, real bool) bool = t.Status == pod_status.Pending || (!real && t.Status == pod_status.Releasing && t.IsVirtualStatus)
+// the pod set holds only real tasks
+//@ define tasksOK(ps *sgi.PodSet) bool = ps != nil && (forall k in ps.podInfos :: ps.podInfos[k] != nil)
+
+//@ func getNumAllocatableTasks
+//@   props C03
+//@   requires tasksOK(subGroup)
+//@   pure
+//@   loop 1
+//@     invariant numTasksToAllocate >= 0
+//@     invariant numTasksToAllocate > 0 <==> (exists k in visited :: k in subGroup.podInfos && wantsAlloc(subGroup.podInfos[k], isRealAllocation))
+//@   ensures result >= 0
+//@   ensures result > 0 <==> (exists k in subGroup.podInfos :: wantsAlloc(subGroup.podInfos[k], isRealAllocation))
+//@ end
+
+// C03 top: "the scheduler never binds fewer pods than needed to reach the minimum": a pod set below its minimum
+// asks for exactly the missing min - allocated tasks; a satisfied pod set grows by at most one task per attempt
+// (exactly one iff it has a task waiting).
+//@ func getNumTasksToAllocate
+//@   props C03
+//@   requires tasksOK(subGroup)
+//@   pure
+//@   ensures [missingToMin] subGroup.numActiveAllocatedTasks < subGroup.minAvailable ==> result == subGroup.minAvailable - subGroup.numActiveAllocatedTasks
+//@   ensures [oneAtATime] subGroup.numActiveAllocatedTasks >= subGroup.minAvailable ==> result == ite(exists k in subGroup.podInfos :: wantsAlloc(subGroup.podInfos[k], isRealAllocation), 1, 0)
+//@ end
+
+// no nil pod set in the workload (established by subgroup_info.FromPodGroup / GetAllPodSets, see C10)
+//@ define setsOK(pgi *PodGroupInfo) bool = pgi != nil && (forall k in pgi.PodSets :: pgi.PodSets[k] != nil)
+// gang threshold of one pod set
+//@ define belowMin(ps *sgi.PodSet) bool = ps.numActiveAllocatedTasks < ps.minAvailable
+//@ define aboveMin(ps *sgi.PodSet) bool = ps.numActiveAllocatedTasks > ps.minAvailable
+
+// C03 (DESIGN): "all unsatisfied pod sets are included" in one allocation attempt; if none is unsatisfied one pod set
+// (elastic growth). The exact number of unsatisfied pod sets is a count over a map (no closed formula in the spec
+// language; `len(visited)` is not available): decided here are the bounds and the two cases that fix the branch
+// structure: exactly 1 when no pod set is below its minimum, and > 0 unsatisfied ==> the count itself is returned
+// (numUnsatisfied, not 1) is visible only through `result >= 1`.
+//@ func getMaxNumSubGroupsToAllocate
+//@   props C03
+//@   requires setsOK(podGroupInfo)
+//@   pure
+//@   loop 1
+//@     invariant 0 <= numUnsatisfied
+//@     invariant numUnsatisfied > 0 <==> (exists k in visited :: k in podGroupInfo.PodSets && belowMin(podGroupInfo.PodSets[k]))
+//@   ensures [atLeastOne] result >= 1
+//@   ensures [elasticOne] (forall k in podGroupInfo.PodSets :: !belowMin(podGroupInfo.PodSets[k])) ==> result == 1
+//@ end
+
+// ---- eviction_info.go ---------------------------------------------------------
+// C03 top: "when it evicts pods of a workload it either keeps every pod set at or above its minimum (elastic shrink)
+// or evicts all of the workload's active pods": from a pod set with surplus exactly one task is taken, otherwise
+// all of its active allocated tasks.
+//@ func getMaxTasksToEvict
+//@   props C03
+//@   requires subGroup != nil
+//@   pure
+//@   ensures result == ite(aboveMin(subGroup), 1, subGroup.numActiveAllocatedTasks)
+//@   ensures [keepsMin] aboveMin(subGroup) ==> subGroup.numActiveAllocatedTasks - result >= subGroup.minAvailable
+//@   ensures [orAll] !aboveMin(subGroup) ==> subGroup.numActiveAllocatedTasks - result == 0
+//@ end
+
+// C03 top: one pod set (the one with surplus) if some pod set is above its minimum, otherwise every pod set.
+//@ func getNumOfSubGroupsToEvict
+//@   props C03
+//@   requires setsOK(podGroupInfo)
+//@   pure
+//@   loop 1
+//@     invariant forall k in visited :: !aboveMin(podGroupInfo.PodSets[k])
+//@   ensures result == ite(exists k in podGroupInfo.PodSets :: aboveMin(podGroupInfo.PodSets[k]), 1, len(podGroupInfo.PodSets))
+//@ end
+
+// ---- job_info.go: gang predicates ----------------------------------------------
+//@ define allTasksOK(pgi *PodGroupInfo) bool = pgi != nil && (forall k in pgi.PodSets :: tasksOK(pgi.PodSets[k]))
+//@ define hasPipelined(ps *sgi.PodSet) bool = exists u in ps.podInfos :: ps.podInfos[u].Status == pod_status.Pipelined
+// an active allocated task that is really placed (not merely nominated)
+//@ define hasPlaced(ps *sgi.PodSet) bool = exists u in ps.podInfos :: ps.podInfos[u].Status != pod_status.Pipelined && pod_status.inActiveAllocated(ps.podInfos[u].Status)
+
+// C03 top: "If only part of a gang can be bound now and the rest must wait for terminating capacity, the whole gang
+// is nominated and nothing is bound": result <==> exists pod set with a Pipelined task and fewer placed (non-pipelined
+// active allocated) tasks than its minimum. The number of placed tasks is a count over a map; decided here:
+// [only]  result ==> some pod set has a Pipelined task and a positive minimum (0 <= placed < min),
+// [sure]  a pod set with a Pipelined task, a positive minimum and no placed task ==> result,
+// [never] no pod set with a Pipelined task, or every minimum <= 0 ==> !result  (catches `<` -> `<=`).
+//@ func (*PodGroupInfo).ShouldPipelineJob
+//@   props C03
+//@   assume allTasksOK(pgi)
+//@   note (changed from `requires` by helper alloc, with main's permission) allTasksOK is the data-structure invariant of PodGroupInfo (pod-set map values non-nil, maintained by the constructors / AssignTask); it cannot be carried across a `modifies *` call (allocate.attemptToAllocateJob calls this right after common.AllocateJob) and is used only for this function's own no-panic obligations
+//@   pure
+//@   loop 1
+//@     invariant forall k in visited :: !(hasPipelined(pgi.PodSets[k]) && !hasPlaced(pgi.PodSets[k]) && pgi.PodSets[k].minAvailable >= 1)
+//@   loop 2
+//@     invariant activeAllocatedTasksCount >= 0
+//@     invariant hasPipelinedTask <==> (exists u in visited :: u in podSet.podInfos && podSet.podInfos[u].Status == pod_status.Pipelined)
+//@     invariant activeAllocatedTasksCount > 0 <==> (exists u in visited :: u in podSet.podInfos && podSet.podInfos[u].Status != pod_status.Pipelined && pod_status.inActiveAllocated(podSet.podInfos[u].Status))
+//@   ensures [only] result ==> (exists k in pgi.PodSets :: hasPipelined(pgi.PodSets[k]) && pgi.PodSets[k].minAvailable >= 1)
+//@   ensures [sure] (exists k in pgi.PodSets :: hasPipelined(pgi.PodSets[k]) && !hasPlaced(pgi.PodSets[k]) && pgi.PodSets[k].minAvailable >= 1) ==> result
+//@   ensures [never] (forall k in pgi.PodSets :: !hasPipelined(pgi.PodSets[k]) || pgi.PodSets[k].minAvailable <= 0) ==> !result
+//@ end
+
+// C03: "every pod set ... has at least its minimum member count of active pods": gang satisfied <==> every pod set has.
+//@ func (*PodGroupInfo).IsGangSatisfied
+//@   props C03
+//@   requires setsOK(pgi)
+//@   pure
+//@   loop 1
+//@     invariant forall k in visited :: pgi.PodSets[k].numActiveUsedTasks >= pgi.PodSets[k].minAvailable
+//@   ensures result == (forall k in pgi.PodSets :: pgi.PodSets[k].numActiveUsedTasks >= pgi.PodSets[k].minAvailable)
+//@ end
+
+// C03 (DESIGN): ready <==> in every pod set alive - gated >= min (enough schedulable pods to reach the minimum)
+//@ func (*PodGroupInfo).IsReadyForScheduling
+//@   props C03
+//@   requires setsOK(pgi)
+//@   pure
+//@   loop 1
+//@     invariant forall k in visited :: pgi.PodSets[k].numAliveTasks - len(pgi.PodSets[k].podStatusIndex[pod_status.Gated]) >= pgi.PodSets[k].minAvailable
+//@   ensures result == (forall k in pgi.PodSets :: pgi.PodSets[k].numAliveTasks - len(pgi.PodSets[k].podStatusIndex[pod_status.Gated]) >= pgi.PodSets[k].minAvailable)
+//@ end
+
+// C06: "elastic workloads only down to their minimum size": elastic <==> some pod set has more pods than its minimum
+//@ func (*PodGroupInfo).IsElastic
+//@   props C03 C06
+//@   requires setsOK(pgi)
+//@   pure
+//@   loop 1
+//@     invariant forall k in visited :: !(pgi.PodSets[k].minAvailable < len(pgi.PodSets[k].podInfos))
+//@   ensures result == (exists k in pgi.PodSets :: pgi.PodSets[k].minAvailable < len(pgi.PodSets[k].podInfos))
+//@ end
+
+// ---- job_info.go: bookkeeping (C14 JobInv) ----------------------------------------
+// Representation invariant of the job-level status index and counter cache.
+//@ define idxWF(pgi *PodGroupInfo) bool = pgi != nil && pgi.PodStatusIndex != nil && pgi.activeAllocatedCount != nil && (forall s in pgi.PodStatusIndex :: pgi.PodStatusIndex[s] != nil && allocated(pgi.PodStatusIndex[s])) && (forall s1 in pgi.PodStatusIndex :: forall s2 in pgi.PodStatusIndex :: s1 != s2 ==> pgi.PodStatusIndex[s1] != pgi.PodStatusIndex[s2])
+// ti is recorded in the job index under its current status (DESIGN C14: deleteTaskIndex keys on the status of its
+// ARGUMENT, so callers must pass a task whose status is the recorded one)
+//@ define indexed(pgi *PodGroupInfo, ti *pod_info.PodInfo) bool = ti.Status in pgi.PodStatusIndex && ti.UID in pgi.PodStatusIndex[ti.Status]
+//@ define inAA(s int) int = ite(pod_status.IsActiveAllocatedStatus(s), 1, 0)
+//@ define cacheCleared(pgi *PodGroupInfo) bool = len(pgi.tasksToAllocate) == 0 && pgi.tasksToAllocateInitResource == nil
+
+// Library model (assumed): k8s.io/utils/ptr.To is `func To[T any](v T) *T { return &v }`.
+//@ func k8s.io/utils/ptr.To
+//@   trusted
+//@   note library model of the generic one-liner ptr.To: a fresh cell holding a copy of the argument
+//@   fresh
+//@   ensures *result == v
+//@ end
+
+// C14: "pod counts per status": the job-level count of active allocated pods moves by the indicator of ti.Status.
+//@ func (*PodGroupInfo).addTaskIndex
+//@   props C14
+//@   requires idxWF(pgi) && ti != nil
+//@   modifies pgi.PodStatusIndex[ti.Status][ti.UID], pgi.PodStatusIndex[ti.Status], pgi.activeAllocatedCount, pgi.tasksToAllocate, pgi.tasksToAllocateInitResource
+//@   ensures [count] *pgi.activeAllocatedCount == old(*pgi.activeAllocatedCount) + inAA(ti.Status)
+//@   ensures [indexed] indexed(pgi, ti) && pgi.PodStatusIndex[ti.Status][ti.UID] == ti
+//@   ensures [sameBucket] old(ti.Status in pgi.PodStatusIndex) ==> pgi.PodStatusIndex[ti.Status] == old(pgi.PodStatusIndex[ti.Status])
+//@   ensures [newBucket] !old(ti.Status in pgi.PodStatusIndex) ==> fresh(pgi.PodStatusIndex[ti.Status])
+//@   ensures [cache] cacheCleared(pgi)
+//@   ensures idxWF(pgi)
+//@ end
+
+// C14: mirror of addTaskIndex. Precondition from the call sites (DESIGN C14): ti is indexed under ti.Status.
+// "PodStatusIndex[s] = {t | status s} with no empty buckets".
+//@ func (*PodGroupInfo).deleteTaskIndex
+//@   props C14
+//@   requires idxWF(pgi) && ti != nil && indexed(pgi, ti)
+//@   modifies pgi.PodStatusIndex[ti.Status][ti.UID], pgi.PodStatusIndex[ti.Status], pgi.activeAllocatedCount, pgi.tasksToAllocate, pgi.tasksToAllocateInitResource
+//@   ensures [count] *pgi.activeAllocatedCount == old(*pgi.activeAllocatedCount) - inAA(ti.Status)
+//@   ensures [removed] !(ti.UID in old(pgi.PodStatusIndex[ti.Status]))
+//@   ensures [sameBucket] ti.Status in pgi.PodStatusIndex ==> pgi.PodStatusIndex[ti.Status] == old(pgi.PodStatusIndex[ti.Status])
+//@   # the two len() facts are lemmas (proved, not exported): at call sites len(<map lookup>) makes the engine emit a quantifier pattern containing ite, which every solver rejects
+//@   lemma [noEmptyBucket] ti.Status in pgi.PodStatusIndex ==> len(pgi.PodStatusIndex[ti.Status]) > 0
+//@   lemma [bucketDropped] !(ti.Status in pgi.PodStatusIndex) ==> old(len(pgi.PodStatusIndex[ti.Status])) == 1
+//@   ensures [cache] cacheCleared(pgi)
+//@   ensures idxWF(pgi)
+//@ end
+
+// C14 "gang counters": the cached job-level count. The count over all pods is abstract (no closed formula over maps):
+// with a filled cache the cached value is returned unchanged; the recount branch only guarantees a filled cache and
+// a non-negative value.
+//@ func (*PodGroupInfo).GetActiveAllocatedTasksCount
+//@   props C14 C03 C06
+//@   requires pgi != nil && (pgi.activeAllocatedCount == nil ==> allTasksOK(pgi))
+//@   modifies pgi.activeAllocatedCount
+//@   loop 1
+//@     invariant taskCount >= 0
+//@   ensures [cached] old(pgi.activeAllocatedCount) != nil ==> pgi.activeAllocatedCount == old(pgi.activeAllocatedCount) && result == old(*pgi.activeAllocatedCount)
+//@   ensures [filled] pgi.activeAllocatedCount != nil && result == *pgi.activeAllocatedCount
+//@   ensures [recount] old(pgi.activeAllocatedCount) == nil ==> result >= 0
+//@ end
+
+// All pods of the workload: every entry of the result is the pod of some pod set, the result is a new map.
+//@ func (*PodGroupInfo).GetAllPodsMap
+//@   props C14 C03 C06 C10
+//@   requires setsOK(pgi)
+//@   fresh
+//@   loop 1
+//@     invariant allPods != nil && fresh(allPods)
+//@     invariant forall id in allPods :: exists k in pgi.PodSets :: id in pgi.PodSets[k].podInfos && allPods[id] == pgi.PodSets[k].podInfos[id]
+//@   loop 2
+//@     invariant allPods != nil && fresh(allPods)
+//@     invariant exists k in pgi.PodSets :: pgi.PodSets[k] == subGroup
+//@     invariant forall id in allPods :: exists k in pgi.PodSets :: id in pgi.PodSets[k].podInfos && allPods[id] == pgi.PodSets[k].podInfos[id]
+//@   ensures result != nil
+//@   ensures [members] forall id in result :: exists k in pgi.PodSets :: id in pgi.PodSets[k].podInfos && result[id] == pgi.PodSets[k].podInfos[id]
+//@ end
+
+// the pod set a task belongs to
+//@ define sgName(ti *pod_info.PodInfo) string = ite(ti.SubGroupName != "", ti.SubGroupName, "default")
+// every pod set is well formed and shares no map with the job-level index
+//@ define sepIdx(pgi *PodGroupInfo, ps *sgi.PodSet) bool = ps.podStatusIndex != pgi.PodStatusIndex && (forall s in pgi.PodStatusIndex :: pgi.PodStatusIndex[s] != ps.podInfos && (forall s2 in ps.podStatusIndex :: pgi.PodStatusIndex[s] != ps.podStatusIndex[s2]))
+//@ define allPsWF(pgi *PodGroupInfo) bool = forall k in pgi.PodSets :: sgi.psWF(pgi.PodSets[k]) && sepIdx(pgi, pgi.PodSets[k])
+// preconditions of the resource_info arithmetic used for Allocated / AllocatedVector (taken from those contracts)
+//@ define accOK(pgi *PodGroupInfo, req *resource_info.ResourceRequirements, vec resource_info.ResourceVector) bool = pgi.Allocated != nil && pgi.Allocated.scalarResources != nil && req != nil && pgi.Allocated.scalarResources != req.scalarResources && pgi.Allocated.scalarResources != req.migResources && (len(pgi.AllocatedVector) > 0 && len(vec) > 0 ==> resource_info.distinctArrays(pgi.AllocatedVector, vec) && len(pgi.AllocatedVector) >= len(vec))
+//@ define isAlloc(s int) bool = pod_status.AllocatedStatus(s)
+
+// C14 JobInv, step "add": pod-set counters, job index/count and Allocated all move by the contribution of ti under ti.Status.
+// A task naming an unknown sub-group is ignored (C10: no panic) and changes nothing that is counted.
+//@ func (*PodGroupInfo).AddTaskInfo
+//@   props C14 C10
+//@   requires ti != nil
+//@   requires idxWF(pgi)
+//@   requires allPsWF(pgi)
+//@   requires accOK(pgi, ti.ResReq, ti.ResReqVector)
+//@   modifies pgi.PodSets[sgName(ti)].podStatusIndex[pgi.PodSets[sgName(ti)].podStatusMap[ti.UID]][ti.UID], pgi.PodSets[sgName(ti)].podStatusIndex[ti.Status][ti.UID], pgi.PodSets[sgName(ti)].podStatusIndex[ti.Status], pgi.PodSets[sgName(ti)].podStatusMap[ti.UID], pgi.PodSets[sgName(ti)].podInfos[ti.UID]
+//@   modifies pgi.PodSets[sgName(ti)].schedulingConstraintsSignature, pgi.PodSets[sgName(ti)].numActiveAllocatedTasks, pgi.PodSets[sgName(ti)].numActiveUsedTasks, pgi.PodSets[sgName(ti)].numAliveTasks
+//@   modifies pgi.PodStatusIndex[ti.Status][ti.UID], pgi.PodStatusIndex[ti.Status], pgi.activeAllocatedCount, pgi.tasksToAllocate, pgi.tasksToAllocateInitResource
+//@   modifies pgi.Allocated.milliCpu, pgi.Allocated.memory, pgi.Allocated.gpus, pgi.Allocated.scalarResources[*], pgi.AllocatedVector[*]
+//@   ensures [podsetInfos] sgName(ti) in pgi.PodSets ==> pgi.PodSets[sgName(ti)].podInfos[ti.UID] == ti
+//@   ensures [podsetStatus] sgName(ti) in pgi.PodSets ==> ti.UID in pgi.PodSets[sgName(ti)].podStatusMap && pgi.PodSets[sgName(ti)].podStatusMap[ti.UID] == ti.Status
+//@   ensures [aa] sgName(ti) in pgi.PodSets ==> pgi.PodSets[sgName(ti)].numActiveAllocatedTasks == old(pgi.PodSets[sgName(ti)].numActiveAllocatedTasks) - old(ite(ti.UID in pgi.PodSets[sgName(ti)].podStatusMap, inAA(pgi.PodSets[sgName(ti)].podStatusMap[ti.UID]), 0)) + inAA(ti.Status)
+//@   ensures [count] *pgi.activeAllocatedCount == old(*pgi.activeAllocatedCount) + ite(sgName(ti) in pgi.PodSets, inAA(ti.Status), 0)
+//@   ensures [indexed] sgName(ti) in pgi.PodSets ==> indexed(pgi, ti) && pgi.PodStatusIndex[ti.Status][ti.UID] == ti
+//@   ensures [allocCpu] pgi.Allocated.milliCpu == old(pgi.Allocated.milliCpu) + ite(sgName(ti) in pgi.PodSets && isAlloc(ti.Status), ti.ResReq.milliCpu, 0.0)
+//@   ensures [allocMem] pgi.Allocated.memory == old(pgi.Allocated.memory) + ite(sgName(ti) in pgi.PodSets && isAlloc(ti.Status), ti.ResReq.memory, 0.0)
+//@   ensures [allocGpuSame] !(sgName(ti) in pgi.PodSets && isAlloc(ti.Status)) ==> pgi.Allocated.gpus == old(pgi.Allocated.gpus)
+//@   ensures idxWF(pgi)
+//@ end
+
+// The job's record for ti.UID is the object ti itself (true for every task taken from the job's own maps, as the
+// Statement operations do). DESIGN C14: resetTaskState subtracts by the STORED task but un-indexes by the ARGUMENT's
+// status, so the bookkeeping is only right when they agree; made a precondition, to be proved at the call sites.
+//@ define stored(pgi *PodGroupInfo, ti *pod_info.PodInfo) bool = forall k in pgi.PodSets :: ti.UID in pgi.PodSets[k].podInfos ==> pgi.PodSets[k].podInfos[ti.UID] == ti
+//@ define inSomePodSet(pgi *PodGroupInfo, ti *pod_info.PodInfo) bool = exists k in pgi.PodSets :: ti.UID in pgi.PodSets[k].podInfos
+
+// C14 JobInv, step "remove from the job-level accounting" (the pod-set record is replaced later by AssignTask).
+//@ func (*PodGroupInfo).resetTaskState
+//@   props C14
+//@   requires idxWF(pgi) && allPsWF(pgi) && allTasksOK(pgi) && ti != nil && indexed(pgi, ti) && stored(pgi, ti) && accOK(pgi, ti.ResReq, ti.ResReqVector)
+//@   modifies pgi.PodStatusIndex[ti.Status][ti.UID], pgi.PodStatusIndex[ti.Status], pgi.activeAllocatedCount, pgi.tasksToAllocate, pgi.tasksToAllocateInitResource
+//@   modifies pgi.Allocated.milliCpu, pgi.Allocated.memory, pgi.Allocated.gpus, pgi.Allocated.scalarResources[*], pgi.AllocatedVector[*]
+//@   ensures [knownTask] result == nil ==> old(inSomePodSet(pgi, ti))
+//@   ensures [errNoChange] result != nil ==> *pgi.activeAllocatedCount == old(*pgi.activeAllocatedCount) && pgi.Allocated.milliCpu == old(pgi.Allocated.milliCpu) && pgi.Allocated.memory == old(pgi.Allocated.memory) && pgi.Allocated.gpus == old(pgi.Allocated.gpus) && indexed(pgi, ti)
+//@   ensures [count] result == nil ==> *pgi.activeAllocatedCount == old(*pgi.activeAllocatedCount) - inAA(ti.Status)
+//@   ensures [unindexed] result == nil ==> !(ti.UID in old(pgi.PodStatusIndex[ti.Status]))
+//@   ensures [sameBucket] ti.Status in pgi.PodStatusIndex ==> pgi.PodStatusIndex[ti.Status] == old(pgi.PodStatusIndex[ti.Status])
+//@   ensures [allocCpu] result == nil ==> pgi.Allocated.milliCpu == old(pgi.Allocated.milliCpu) - ite(isAlloc(ti.Status), ti.ResReq.milliCpu, 0.0)
+//@   ensures [allocMem] result == nil ==> pgi.Allocated.memory == old(pgi.Allocated.memory) - ite(isAlloc(ti.Status), ti.ResReq.memory, 0.0)
+//@   ensures [allocGpuSame] !isAlloc(ti.Status) ==> pgi.Allocated.gpus == old(pgi.Allocated.gpus)
+//@   ensures idxWF(pgi)
+//@   ensures [sep] allPsWF(pgi)
+//@   ensures [acc] accOK(pgi, ti.ResReq, ti.ResReqVector)
+//@ end
+
+// C14 mechanism "UpdateTaskStatus = resetTaskState + AddTaskInfo": on success the task carries the new status and every
+// counter has moved from the contribution of the old status to that of the new one; on failure nothing counted changed.
+// JobInv(pgi) for callers = idxWF(pgi) && allPsWF(pgi) && allTasksOK(pgi); per call: indexed/stored/accOK of the task.
+//@ func (*PodGroupInfo).UpdateTaskStatus
+//@   props C14 C13
+//@   requires idxWF(pgi) && allPsWF(pgi) && allTasksOK(pgi) && task != nil && indexed(pgi, task) && stored(pgi, task) && accOK(pgi, task.ResReq, task.ResReqVector)
+//@   modifies task.Status
+//@   modifies pgi.PodSets[sgName(task)].podStatusIndex[pgi.PodSets[sgName(task)].podStatusMap[task.UID]][task.UID], pgi.PodSets[sgName(task)].podStatusIndex[status][task.UID], pgi.PodSets[sgName(task)].podStatusIndex[status], pgi.PodSets[sgName(task)].podStatusMap[task.UID], pgi.PodSets[sgName(task)].podInfos[task.UID]
+//@   modifies pgi.PodSets[sgName(task)].schedulingConstraintsSignature, pgi.PodSets[sgName(task)].numActiveAllocatedTasks, pgi.PodSets[sgName(task)].numActiveUsedTasks, pgi.PodSets[sgName(task)].numAliveTasks
+//@   modifies pgi.PodStatusIndex[task.Status][task.UID], pgi.PodStatusIndex[*], pgi.PodStatusIndex[status][task.UID], pgi.activeAllocatedCount, pgi.tasksToAllocate, pgi.tasksToAllocateInitResource
+//@   modifies pgi.Allocated.milliCpu, pgi.Allocated.memory, pgi.Allocated.gpus, pgi.Allocated.scalarResources[*], pgi.AllocatedVector[*]
+//@   ensures [status] (result == nil ==> task.Status == status) && (result != nil ==> task.Status == old(task.Status))
+//@   ensures [errNoChange] result != nil ==> *pgi.activeAllocatedCount == old(*pgi.activeAllocatedCount) && pgi.Allocated.milliCpu == old(pgi.Allocated.milliCpu) && pgi.Allocated.memory == old(pgi.Allocated.memory)
+//@   ensures [count] result == nil ==> *pgi.activeAllocatedCount == old(*pgi.activeAllocatedCount) - inAA(old(task.Status)) + ite(sgName(task) in pgi.PodSets, inAA(status), 0)
+//@   ensures [aa] result == nil && sgName(task) in pgi.PodSets ==> pgi.PodSets[sgName(task)].numActiveAllocatedTasks == old(pgi.PodSets[sgName(task)].numActiveAllocatedTasks) - old(ite(task.UID in pgi.PodSets[sgName(task)].podStatusMap, inAA(pgi.PodSets[sgName(task)].podStatusMap[task.UID]), 0)) + inAA(status)
+//@   ensures [allocCpu] result == nil ==> pgi.Allocated.milliCpu == old(pgi.Allocated.milliCpu) - ite(isAlloc(old(task.Status)), task.ResReq.milliCpu, 0.0) + ite(sgName(task) in pgi.PodSets && isAlloc(status), task.ResReq.milliCpu, 0.0)
+//@   ensures [allocMem] result == nil ==> pgi.Allocated.memory == old(pgi.Allocated.memory) - ite(isAlloc(old(task.Status)), task.ResReq.memory, 0.0) + ite(sgName(task) in pgi.PodSets && isAlloc(status), task.ResReq.memory, 0.0)
+//@   ensures [indexed] result == nil && sgName(task) in pgi.PodSets ==> indexed(pgi, task)
+//@   # frame of the job-level index is `pgi.PodStatusIndex[*]` + [otherBuckets]: the two-key form `[task.Status], [status]` is true but no solver finishes the frame query
+//@   ensures [otherBuckets] forall s int :: s != old(task.Status) && s != status ==> (s in pgi.PodStatusIndex <==> old(s in pgi.PodStatusIndex)) && pgi.PodStatusIndex[s] == old(pgi.PodStatusIndex[s])
+//@   ensures idxWF(pgi)
+//@ end
+
+// ---- priority-queue consumers (scheduler_util.PriorityQueue: counts and membership only, order external) ----------
+//@ define allTasks(q *scheduler_util.PriorityQueue) bool = forall i int :: 0 <= i && i < len(q.queue.items) ==> typeis(q.queue.items[i], "*pod_info.PodInfo")
+//@ define allPodSets(q *scheduler_util.PriorityQueue) bool = forall i int :: 0 <= i && i < len(q.queue.items) ==> typeis(q.queue.items[i], "*sgi.PodSet") && unbox(q.queue.items[i], "*sgi.PodSet") != nil
+
+// C03 top (allocation side): from a pod set's queue of waiting tasks exactly the requested number is taken, or all of
+// them if fewer are waiting: with getNumTasksToAllocate this is "exactly min - allocated tasks" whenever enough pending.
+//@ func getTasksFromQueue
+//@   props C03
+//@   requires priorityQueue != nil && allTasks(priorityQueue)
+//@   modifies priorityQueue.queue.items, priorityQueue.queue.items[*]
+//@   loop 1
+//@     invariant priorityQueue != nil && allTasks(priorityQueue)
+//@     invariant len(tasksToAllocate) >= 0 && len(tasksToAllocate) + len(priorityQueue.queue.items) == old(len(priorityQueue.queue.items))
+//@     invariant len(tasksToAllocate) <= max(maxNumTasks, 0)
+//@     decreases len(priorityQueue.queue.items)
+//@   ensures [exactCount] len(result) == min(max(maxNumTasks, 0), old(len(priorityQueue.queue.items)))
+//@   ensures [rest] len(priorityQueue.queue.items) == old(len(priorityQueue.queue.items)) - len(result)
+//@ end
+
+// C03 top (eviction side): one surplus task or all active allocated tasks of the pod set (getMaxTasksToEvict) are taken.
+//@ func getTasksToEvictFromQueue
+//@   props C03
+//@   requires priorityQueue != nil && allTasks(priorityQueue)
+//@   modifies priorityQueue.queue.items, priorityQueue.queue.items[*]
+//@   loop 1
+//@     invariant priorityQueue != nil && allTasks(priorityQueue)
+//@     invariant numEvictedTasks == len(tasks) && numEvictedTasks >= 0 && numEvictedTasks + len(priorityQueue.queue.items) == old(len(priorityQueue.queue.items))
+//@     invariant numEvictedTasks <= max(maxTasksToEvict, 0)
+//@     decreases len(priorityQueue.queue.items)
+//@   ensures [exactCount] len(result) == min(max(maxTasksToEvict, 0), old(len(priorityQueue.queue.items)))
+//@   ensures [rest] len(priorityQueue.queue.items) == old(len(priorityQueue.queue.items)) - len(result)
+//@ end
+
+// queue of the tasks of one pod set that still have to be placed: only such tasks, only tasks of this pod set
+//@ func getTasksPriorityQueue
+//@   props C03
+//@   requires tasksOK(subGroup)
+//@   fresh
+//@   loop 1
+//@     invariant forall p *scheduler_util.priorityQueue :: !fresh(p) ==> p.items == old(p.items)   // engine: the loop-head havoc for the Push contract uses an unconstrained receiver (also next line)
+//@     invariant (forall c *interface{} :: !fresh(c) ==> *c == old(*c)) && fresh(priorityQueue.queue.items)
+//@     invariant priorityQueue != nil && fresh(priorityQueue) && allTasks(priorityQueue) && priorityQueue.maxQueueSize == scheduler_util.QueueCapacityInfinite
+//@     invariant forall i int :: 0 <= i && i < len(priorityQueue.queue.items) ==> wantsAlloc(unbox(priorityQueue.queue.items[i], "*pod_info.PodInfo"), isRealAllocation)
+//@     invariant len(priorityQueue.queue.items) > 0 <==> (exists k in visited :: k in subGroup.podInfos && wantsAlloc(subGroup.podInfos[k], isRealAllocation))
+//@   ensures [freshBacking] fresh(result.queue.items)
+//@   ensures result != nil && allTasks(result)
+//@   ensures [onlyWaiting] forall i int :: 0 <= i && i < len(result.queue.items) ==> wantsAlloc(unbox(result.queue.items[i], "*pod_info.PodInfo"), isRealAllocation)
+//@   ensures [nonEmptyIffWaiting] len(result.queue.items) > 0 <==> (exists k in subGroup.podInfos :: wantsAlloc(subGroup.podInfos[k], isRealAllocation))
+//@ end
+
+// queue of the active allocated tasks of one pod set (eviction candidates); pod_status.aaClass is the named class
+// "active allocated" exported by the contract of pod_status.IsActiveAllocatedStatus ([named])
+//@ func getTasksToEvictPriorityQueue
+//@   props C03
+//@   requires tasksOK(subGroup)
+//@   fresh
+//@   loop 1
+//@     invariant forall p *scheduler_util.priorityQueue :: !fresh(p) ==> p.items == old(p.items)   // engine: the loop-head havoc for the Push contract uses an unconstrained receiver (also next line)
+//@     invariant (forall c *interface{} :: !fresh(c) ==> *c == old(*c)) && fresh(podPriorityQueue.queue.items)
+//@     invariant podPriorityQueue != nil && fresh(podPriorityQueue) && allTasks(podPriorityQueue) && podPriorityQueue.maxQueueSize == scheduler_util.QueueCapacityInfinite
+//@     invariant forall i int :: 0 <= i && i < len(podPriorityQueue.queue.items) ==> pod_status.aaClass(unbox(podPriorityQueue.queue.items[i], "*pod_info.PodInfo").Status)
+//@   ensures [freshBacking] fresh(result.queue.items)
+//@   ensures result != nil && allTasks(result)
+//@   ensures [onlyActiveAllocated] forall i int :: 0 <= i && i < len(result.queue.items) ==> pod_status.aaClass(unbox(result.queue.items[i], "*pod_info.PodInfo").Status)
+//@ end
+
+// queue of all pod sets of the workload
+//@ func getSubGroupsPriorityQueue
+//@   props C03
+//@   requires forall k in subGroups :: subGroups[k] != nil
+//@   fresh
+//@   loop 1
+//@     invariant forall p *scheduler_util.priorityQueue :: !fresh(p) ==> p.items == old(p.items)   // engine: the loop-head havoc for the Push contract uses an unconstrained receiver (also next line)
+//@     invariant (forall c *interface{} :: !fresh(c) ==> *c == old(*c)) && fresh(priorityQueue.queue.items)
+//@     invariant priorityQueue != nil && fresh(priorityQueue) && allPodSets(priorityQueue) && priorityQueue.maxQueueSize == scheduler_util.QueueCapacityInfinite
+//@     invariant forall i int :: 0 <= i && i < len(priorityQueue.queue.items) ==> (exists k in subGroups :: subGroups[k] == unbox(priorityQueue.queue.items[i], "*sgi.PodSet"))
+//@     invariant len(priorityQueue.queue.items) > 0 <==> (exists k in visited :: k in subGroups)
+//@   ensures [freshBacking] fresh(result.queue.items)
+//@   ensures result != nil && allPodSets(result)
+//@   ensures [members] forall i int :: 0 <= i && i < len(result.queue.items) ==> (exists k in subGroups :: subGroups[k] == unbox(result.queue.items[i], "*sgi.PodSet"))
+//@   ensures [nonEmpty] len(result.queue.items) > 0 <==> (exists k in subGroups :: true)
+//@ end
+
+// every queued pod set is one of the workload's pod sets
+//@ define queueOf(q *scheduler_util.PriorityQueue, pgi *PodGroupInfo) bool = (forall i int :: 0 <= i && i < len(q.queue.items) ==> (exists k in pgi.PodSets :: pgi.PodSets[k] == unbox(q.queue.items[i], "*sgi.PodSet")))
+
+// C03 top (DESIGN: "with allocated >= min at most one"): a workload whose pod sets all have their minimum grows by at
+// most one task per attempt. For a pod set below its minimum the number of tasks taken is decided by
+// getNumTasksToAllocate[missingToMin] + getTasksFromQueue[exactCount] (per pod set; a sum over the popped pod sets is
+// not expressible for the flat result slice). The result is cached.
+//@ func GetTasksToAllocate
+//@   props C03
+//@   requires setsOK(podGroupInfo) && allTasksOK(podGroupInfo)
+//@   modifies podGroupInfo.tasksToAllocate
+//@   loop 1
+//@     invariant subGroupPriorityQueue != nil && fresh(subGroupPriorityQueue) && fresh(subGroupPriorityQueue.queue.items)
+//@     invariant allPodSets(subGroupPriorityQueue)
+//@     invariant queueOf(subGroupPriorityQueue, podGroupInfo)
+//@     invariant numSubGroupsToAllocate >= 0 && len(tasksToAllocate) >= 0 && numSubGroupsToAllocate <= maxNumSubGroups
+//@     invariant (forall k in podGroupInfo.PodSets :: !belowMin(podGroupInfo.PodSets[k])) ==> len(tasksToAllocate) <= numSubGroupsToAllocate
+//@     invariant forall p *scheduler_util.priorityQueue :: !fresh(p) ==> p.items == old(p.items)
+//@     invariant forall c *interface{} :: !fresh(c) ==> *c == old(*c)
+//@     decreases len(subGroupPriorityQueue.queue.items)
+//@   ensures [cacheHit] old(len(podGroupInfo.tasksToAllocate)) > 0 ==> len(result) == old(len(podGroupInfo.tasksToAllocate))
+//@   ensures [cached] len(podGroupInfo.tasksToAllocate) == len(result)
+//@   ensures [elasticAtMostOne] old(len(podGroupInfo.tasksToAllocate)) == 0 && (forall k in podGroupInfo.PodSets :: !belowMin(podGroupInfo.PodSets[k])) ==> len(result) <= 1
+//@ end
+
+// C03 top (eviction): "it either keeps every pod set at or above its minimum (elastic shrink) or evicts all":
+// decided here without any assumption on the (external) queue order: if every pod set has surplus at most one task is
+// returned; the second result says whether the eviction is partial (fewer victims than active allocated pods).
+// With mixed pod sets (some with surplus, some without) which pod set is popped first depends on the order function
+// (DESIGN: assumption PodSetOrderFns = [subgrouporder], contract subgrouporder.PodSetOrderFn); then the number taken
+// from the popped pod set is decided by getMaxTasksToEvict + getTasksToEvictFromQueue[exactCount].
+//@ func getTasksToEvictWithSubGroups
+//@   props C03
+//@   requires setsOK(job) && allTasksOK(job)
+//@   modifies job.activeAllocatedCount
+//@   loop 1
+//@     invariant subGroupPriorityQueue != nil && fresh(subGroupPriorityQueue) && fresh(subGroupPriorityQueue.queue.items)
+//@     invariant allPodSets(subGroupPriorityQueue)
+//@     invariant queueOf(subGroupPriorityQueue, job)
+//@     invariant numEvictedSubGroups >= 0 && len(tasksToEvict) >= 0 && numEvictedSubGroups <= maxNumOfSubGroups
+//@     invariant (forall k in job.PodSets :: aboveMin(job.PodSets[k])) ==> len(tasksToEvict) <= numEvictedSubGroups
+//@     invariant forall p *scheduler_util.priorityQueue :: !fresh(p) ==> p.items == old(p.items)
+//@     invariant forall c *interface{} :: !fresh(c) ==> *c == old(*c)
+//@     decreases len(subGroupPriorityQueue.queue.items)
+//@   ensures [shrinkAtMostOne] (exists k in job.PodSets :: true) && (forall k in job.PodSets :: aboveMin(job.PodSets[k])) ==> len(result0) <= 1
+//@   ensures [partialFlag] result1 == (len(result0) < *job.activeAllocatedCount)
+//@   ensures [countKept] old(job.activeAllocatedCount) != nil ==> job.activeAllocatedCount == old(job.activeAllocatedCount) && *job.activeAllocatedCount == old(*job.activeAllocatedCount)
+//@ end
+
+//@ func GetTasksToEvict
+//@   props C03 C06
+//@   requires setsOK(job) && allTasksOK(job)
+//@   modifies job.activeAllocatedCount
+//@   ensures [shrinkAtMostOne] (exists k in job.PodSets :: true) && (forall k in job.PodSets :: aboveMin(job.PodSets[k])) ==> len(result0) <= 1
+//@   ensures [partialFlag] result1 == (len(result0) < *job.activeAllocatedCount)
+//@   ensures [countKept] old(job.activeAllocatedCount) != nil ==> job.activeAllocatedCount == old(job.activeAllocatedCount) && *job.activeAllocatedCount == old(*job.activeAllocatedCount)
+//@ end
+
+// C10 (pod groups bullet): installing the sub-group tree of ANY PodGroup object never panics; a PodGroup whose
+// SubGroups are rejected keeps the previous pod sets; without sub-groups the default pod set gets minAvailable =
+// max(Spec.MinMember, 1) >= 1 ("non-positive minimums").
+//@ func (*PodGroupInfo).setSubGroups
+//@   props C10
+//@   requires setsOK(pgi) && podGroup != nil
+//@   modifies pgi.RootSubGroupSet, pgi.PodSets, pgi.PodSets["default"].minAvailable, family(pgi.RootSubGroupSet.parent), family(pgi.RootSubGroupSet.groups), family(pgi.RootSubGroupSet.podSets)
+//@   ensures [rejectedKeepsOld] result != nil ==> pgi.PodSets == old(pgi.PodSets) && pgi.RootSubGroupSet == old(pgi.RootSubGroupSet)
+//@   ensures [rootSet] result == nil ==> pgi.RootSubGroupSet != nil
+//@   ensures [defaultMin] result == nil && pgi.PodSets == old(pgi.PodSets) && "default" in pgi.PodSets ==> pgi.PodSets["default"].minAvailable == max(podGroup.Spec.MinMember, 1)
+//@   ensures [newSets] result == nil && pgi.PodSets != old(pgi.PodSets) ==> fresh(pgi.PodSets) && len(pgi.PodSets) > 0
+//@ end
+
+// Library models (assumed) needed by SetPodGroup: a k8s metadata getter and time.Parse, both without side effects.
+//@ func (*k8s.io/apimachinery/pkg/apis/meta/v1.ObjectMeta).GetCreationTimestamp
+//@   trusted
+//@   note library getter `return meta.CreationTimestamp`: no side effects, never panics on a non-nil receiver
+//@   pure
+//@ end
+//@ func time.Parse
+//@   trusted
+//@   note standard library: parses a string, no side effects on the program heap, returns an error for bad input
+//@   pure
+//@ end
+
+// C10: SetPodGroup is total on every PodGroup object (bad sub-groups, unparsable timestamps, missing annotations).
+//@ func (*PodGroupInfo).SetPodGroup
+//@   props C10
+//@   requires setsOK(pgi) && pg != nil
+//@   modifies fields(pgi), pgi.PodSets["default"].minAvailable, family(pgi.RootSubGroupSet.parent), family(pgi.RootSubGroupSet.groups), family(pgi.RootSubGroupSet.podSets)
+//@   ensures pgi.PodGroup == pg && pgi.Queue == pg.Spec.Queue && pgi.Name == pg.Name && pgi.Namespace == pg.Namespace
+//@ end
+
+// ---- added by helper "solver" (stable families, ENGINE_NEWS batch 7) ---------------------------------
+// The pod-set skeleton of a job is fixed after the snapshot: needed so that setsOK(job) survives the
+// `modifies *` statement operations of the solver layer (JobSolver.Solve: "jobSolved ==> IsGangSatisfied").
+//@ stable PodGroupInfo.PodSets
+//@ stable PodGroupInfo.UID
+//@ stable maptype map[string]*subgroup_info.PodSet
+
+// ---- added by helper "alloc" ---------------------------------------------------------------------------------
+// Only used for a log line by allocate.attemptToAllocateJob / common.TryToVirtuallyAllocatePreemptorAndGetVictims,
+// but without a contract the call havocs the whole heap (statement logs included). Claimed: the frame - the two
+// caches of the job are the only pre-existing locations written (the sum is built in a new Resource object).
+//@ func GetTasksToAllocateInitResource
+//@   props C03
+//@   nopanic off
+//@   note nopanic off: the tasks come out of GetTasksToAllocate's priority queues (membership only is assumed there), so their non-nil-ness / ResReq cannot be derived; only the frame is claimed
+//@   assume podGroupInfo != nil ==> setsOK(podGroupInfo) && allTasksOK(podGroupInfo)
+//@   assume forall t *pod_info.PodInfo :: t.ResReq != nil ==> allocated(t.ResReq.scalarResources) && allocated(t.ResReq.migResources)   // heap closedness: request maps of existing tasks exist before the call
+//@   modifies podGroupInfo.tasksToAllocate, podGroupInfo.tasksToAllocateInitResource
+//@   loop 1
+//@     invariant tasksTotalRequestedResource != nil && fresh(tasksTotalRequestedResource) && tasksTotalRequestedResource.scalarResources != nil && fresh(tasksTotalRequestedResource.scalarResources)
+//@     invariant forall r2 *resource_info.Resource :: !fresh(r2) ==> r2.gpus == old(r2.gpus) && r2.milliCpu == old(r2.milliCpu) && r2.memory == old(r2.memory)
+//@     invariant forall m map[v1.ResourceName]int64, k v1.ResourceName :: !fresh(m) ==> m[k] == old(m[k]) && (k in m) == old(k in m)
+//@     invariant podGroupInfo.tasksToAllocateInitResource == old(podGroupInfo.tasksToAllocateInitResource)
+//@ end
+
+// ---- exec (C05: scheduling-signature shortcut of the victim-seeking actions) ---------------------------
+// PodGroupInfo.Queue is assigned by SetPodGroup only (cache snapshot); the scheduling actions read it.
+//@ stable PodGroupInfo.Queue
+// The job-level signature is a SHA-256 over the sorted pod-set signatures (crypto/sha256, fmt, slices.Sort:
+// outside the subset). Assumed: the call caches a non-empty value in pgi.schedulingConstraintsSignature and
+// returns the cached value; a cached value is never recomputed; besides this cell only the signature caches
+// of the job's pod sets / pods / topology constraints are written.
+//@ func (*PodGroupInfo).GetSchedulingConstraintsSignature
+//@   props C05
+//@   trusted
+//@   note crypto/sha256 + fmt.Sprintf("%x") + slices.Sort are outside the subset; assumed: returns the (lazily filled, never empty, never recomputed) cache cell pgi.schedulingConstraintsSignature; writes only signature cache cells
+//@   requires pgi != nil
+//@   modifies pgi.schedulingConstraintsSignature, family(pgi.PodSets[""].schedulingConstraintsSignature), family(pgi.PodSets[""].podInfos[""].schedulingConstraintsSignature), family(pgi.PodSets[""].topologyConstraint.schedulingConstraintsSignature)
+//@   ensures result == pgi.schedulingConstraintsSignature && result != ""
+//@   ensures old(pgi.schedulingConstraintsSignature) != "" ==> pgi.schedulingConstraintsSignature == old(pgi.schedulingConstraintsSignature)
+//@ end
+// ---- end exec ----
